@@ -250,8 +250,10 @@ def _descent_direction(X, y, w_epoch, Xw_epoch, fit_intercept, grad_ws, datafit,
 
     for cd_iter in range(MAX_CD_ITER):
         for idx, j in enumerate(ws):
-            # skip when X[:, j] == 0
+            # X[:, j] == 0: the gradient is zero, only the penalty acts on the
+            # coefficient (same fallback step as in the CD epochs)
             if lipschitz_ws[idx] == 0:
+                w_ws[idx] = penalty.prox_1d(w_ws[idx], 1000., j)
                 continue
 
             past_grads[idx] = grad_ws[idx] + X[:, j] @ (raw_hess * X_delta_w_ws)
@@ -320,8 +322,10 @@ def _descent_direction_s(X_data, X_indptr, X_indices, y, w_epoch,
 
     for cd_iter in range(MAX_CD_ITER):
         for idx, j in enumerate(ws):
-            # skip when X[:, j] == 0
+            # X[:, j] == 0: the gradient is zero, only the penalty acts on the
+            # coefficient (same fallback step as in the CD epochs)
             if lipschitz_ws[idx] == 0:
+                w_ws[idx] = penalty.prox_1d(w_ws[idx], 1000., j)
                 continue
 
             past_grads[idx] = grad_ws[idx]
